@@ -304,6 +304,21 @@ func buildFont(fs FontSpec, prog []byte) (*font.Font, error) {
 		if fs.Encoding == "" {
 			dict["Encoding"] = core.Name("Identity-H")
 		}
+		if strings.HasPrefix(fs.Encoding, "@stream") {
+			// /Encoding of a Type0 font: "the name of a predefined CMap, or a stream containing a CMap" (9.7.6.1,
+			// Table 121); an embedded identity CMap, direct or (the usual form) as an indirect object
+			prog := "/CIDInit /ProcSet findresource begin\n12 dict begin\nbegincmap\n/CIDSystemInfo << /Registry (Adobe) /Ordering (Identity) /Supplement 0 >> def\n" +
+				"/CMapName /Custom-H def\n/CMapType 1 def\n1 begincodespacerange\n<0000> <FFFF>\nendcodespacerange\n1 begincidrange\n<0000> <FFFF> 0\nendcidrange\nendcmap\n" +
+				"CMapName currentdict /CMap defineresource pop\nend\nend\n"
+			st := &core.Stream{Dict: core.Dict{"Type": core.Name("CMap"), "CMapName": core.Name("Custom-H"), "Length": core.Int(len(prog)),
+				"CIDSystemInfo": core.Dict{"Registry": core.String("Adobe"), "Ordering": core.String("Identity"), "Supplement": core.Int(0)}}, Data: []byte(prog)}
+			if fs.Encoding == "@stream-indirect" {
+				objs[7] = st
+				dict["Encoding"] = core.IndirectRef{Number: 7}
+			} else {
+				dict["Encoding"] = st
+			}
+		}
 		dict["DescendantFonts"] = core.Array{core.Dict{
 			"Type": core.Name("Font"), "Subtype": core.Name("CIDFontType2"), "BaseFont": core.Name("ABCDEF+Custom"),
 			"CIDSystemInfo": core.Dict{"Registry": core.String("Adobe"), "Ordering": core.String("Identity"), "Supplement": core.Int(0)},
@@ -584,6 +599,9 @@ func genFontSpec(t *rapid.T, width int, withCMap bool) FontSpec {
 		fs.Encoding = rapid.SampledFrom([]string{"", "Identity-H", "Identity-V", "WinAnsiEncoding"}).Draw(t, "encoding")
 		if fs.Via == "type0" && fs.Encoding == "WinAnsiEncoding" {
 			fs.Encoding = "Identity-H"
+		}
+		if fs.Via == "type0" && rapid.IntRange(0, 3).Draw(t, "encodingStream") == 0 {
+			fs.Encoding = rapid.SampledFrom([]string{"@stream", "@stream-indirect"}).Draw(t, "encodingStreamForm")
 		}
 	default:
 		fs.Via = "plain"
